@@ -207,6 +207,23 @@ theorem verify_comments_irrelevant (lines lines' : List Line) (e0Ln : Int) (e0Co
 example : verifyNoClose ["a".toList, "# 2) second, optional".toList, ", b".toList] 0 0 0 1 2 '(' ')' = true
     ∧ verifyNoClose ["a".toList, "# x, y".toList, "),(b".toList] 0 0 0 1 2 '(' ')' = false := by decide
 
+/-- **`parse_arg` returns a node only for exactly one parameter without default**, on both of its paths: after the normal
+wrapper the single parameter is a plain one, after the star wrapper (`name: *annotation`) it is the vararg; anything else in
+any other slot of the `arguments` node (positional-only, keyword-only, `*args`, `**kwargs`, a default) is refused.
+(`kw_defaults` has one entry per keyword-only parameter, so `kwDefaults = kwonly` in what CPython returns.) -/
+theorem arg_single (s : ArgsShape) (hk : s.kwDefaults = s.kwonly) :
+    (argNormalOk s = true ↔ nParams s = 1 ∧ s.args = 1 ∧ s.defaults = 0)
+    ∧ (argStarOk s = true ↔ nParams s = 1 ∧ s.vararg = true ∧ s.defaults = 0) := by
+  obtain ⟨po, ar, va, ko, kd, kw, de⟩ := s
+  simp only at hk
+  subst hk
+  constructor
+  · cases va <;> cases kw <;> simp [argNormalOk, nParams] <;> omega
+  · cases va <;> cases kw <;> simp [argStarOk, nParams] <;> omega
+
+example : argStarOk ⟨0, 0, true, 0, 0, true, 0⟩ = false ∧ argStarOk ⟨0, 0, true, 0, 0, false, 0⟩ = true
+    ∧ argNormalOk ⟨0, 1, false, 0, 0, true, 0⟩ = false := by decide
+
 /-! ## location repair of an undelimited sequence (`_fix_undelimited_seq_parsed_delimited`, model `Pfst/SeqFix.lean`) -/
 
 section SeqFix
